@@ -247,8 +247,9 @@ def check(case, rec):
         r = t2
         where = "fill_in_steps"
     elif op == "from_ragged":
-        # a nest whose sub-lists differ in length between (not within) the elements of an upper rank:
-        # accepted by fromUncompressed, the shape is the maximum per level
+        # a nest whose sub-lists differ in length between (not within) the elements of an upper rank: not
+        # rectangular, so the constructor may reject it; if it produces a tensor, that tensor is "produced
+        # by a constructor" and its coordinates lie inside the shape it reports
         if d < 3:
             return
         def nest(level, widen):
@@ -257,7 +258,11 @@ def check(case, rec):
                 return [1 + (i + widen) % 3 if (i + sel[1]) % 2 else default for i in range(n)]
             return [nest(level + 1, widen) for _ in range(n)]
         top = [nest(1, (i * (1 + sel[2] % 2)) % 3) for i in range(shape[0])]
-        r = Tensor.fromUncompressed(list(ids), top, default=default)
+        try:
+            r = Tensor.fromUncompressed(list(ids), top, default=default)
+        except (ValueError, TypeError, AssertionError):
+            rec.cls("ragged-rejected")
+            return
         where = "fromUncompressed(ragged nest)"
         expect(r, where, ids=ids, default=default)
     elif op == "flatten_twice":
